@@ -66,7 +66,7 @@ def run(ctx):
                 'rates over 12 decades; shifts scalar or arrays of every prefix rank with matching or length-1 axes: whole bins, fractional, '
                 'beyond the bandwidth, either sign, several frequency units; malformed: non-baseband class, non-frequency shift, too many '
                 'dims, non-broadcastable. non-trivial: non-zero shift; distinct by (class, N, shapes, values, dtype).')
-    ctx.trusted = ['Coq 8.16.1 kernel; stdlib real-number axioms for the value theorems over C; vm_compute on primitive floats',
+    ctx.trusted = ['translator T6 translate/py_shift2coq.py (loop body and ramp sign of freq_shift; every other statement pinned)', 'Coq 8.16.1 kernel; stdlib real-number axioms for the value theorems over C; vm_compute on primitive floats',
                    'scipy.fft = the mathematical DFT (validated numerically against an O(N^2) longdouble oracle on every case)',
                    'numpy broadcasting / nditer / fftshift as transcribed in Model/Shift.v (validated by the exact zero-bin comparison)']
     ctx.assumptions = ['values within 1e-10*N*max|x| (complex128) / 6e-6*max|x| (complex64: the phasor is cast to the signal dtype)',
